@@ -839,6 +839,9 @@ class Generator:
             a, b = [x.strip() for x in opts["retype"].split("=>", 1)]
             rx = re.compile(r"\s*".join(re.escape(tok) for tok in re.findall(r"\w+|[^\w\s]", a)))
             sig_lo, sig_hi = s[it.kw].start, s[it.body_open].start
+            if "retype-body" in opts.get("flags", ""):
+                # the same type text inside the body (`let v: Vec<Box<dyn ..>> = ..`) is retargeted too
+                sig_hi = s[src.match[it.body_open]].end
             hits = list(rx.finditer(src.text, sig_lo, sig_hi))
             if not hits:
                 raise LostAnchor("%s: signature of %s has no type %s (retype)" % (file, path[-1], a))
